@@ -1,8 +1,10 @@
 import CJ.Drv.Loop
 import CJ.Drv.Registry
-/-! Driver for C08: the registry model. -/
+import CJ.Drv.RegistryX
+/-! Driver for C08: the registry model and its extended histories. -/
 open CJ.Drv
 
 def main : IO Unit := runDriver fun
   | "registry" :: args => Registry.handle args
+  | "registryx" :: args => RegistryX.handle args
   | _ => none
